@@ -118,12 +118,18 @@ func genOp(r *rand.Rand, m *model.Client, w opWeights, salt int) adapt.Op {
 					if !have["gsi3"] && r.Intn(2) == 0 {
 						chg = append(chg, adapt.IndexChange{Create: &adapt.IndexSpec{Name: "gsi3", Hash: "s"}})
 					}
+					if r.Intn(3) == 0 {
+						chg = append(chg, adapt.IndexChange{Update: mon.Pick(r, []string{"gsi1", "gsi2", "gsi3", "nosuch"})})
+					}
 					if r.Intn(2) == 0 {
 						chg = append(chg, adapt.IndexChange{Delete: "nosuch"})
 					}
 					if len(chg) > 0 {
 						return adapt.Op{Kind: adapt.OpUpdateTable, Table: name, Chg: chg}
 					}
+				}
+				if r.Intn(5) == 0 {
+					return adapt.Op{Kind: adapt.OpUpdateTable, Table: name, Chg: []adapt.IndexChange{{Update: mon.Pick(r, []string{"gsi1", "gsi2", "gsi3", "nosuch"})}}}
 				}
 				del := mon.Pick(r, []string{"gsi1", "gsi2", "gsi3", "nosuch"})
 				if del == "lsi1" {
